@@ -172,3 +172,211 @@ func VerifC20_History_Error_v4() { verifC20History(5, primitive.ProtocolVersion4
 func VerifC20_History_Error_v5() { verifC20History(5, primitive.ProtocolVersion5, verifC20Depth()) }
 func VerifC20_History_Error_dse1() { verifC20History(5, primitive.ProtocolVersionDse1, verifC20Depth()) }
 func VerifC20_History_Error_dse2() { verifC20History(5, primitive.ProtocolVersionDse2, verifC20Depth()) }
+
+// ---- each mutator's own post-condition from an ARBITRARY pre-state (flags symbolic, parts present or not, the
+// argument possibly the very object the body already holds). The doc comments promise "adjusting the header flags
+// accordingly": after the call the governed flag reflects the argument whatever the frame looked like before
+// (e.g. after a decoder, a struct literal, or a mutator of the other direction left flag and body out of step),
+// no other flag bit and no other body part changes.
+
+func verifC20OneStep(kind int, v primitive.ProtocolVersion) {
+	msg := verifC20Message(kind)
+	f := NewFrame(v, 1, msg)
+	pre := primitive.HeaderFlag(nd.Uint8("pre flags"))
+	f.Header.Flags = pre
+	var idA primitive.UUID
+	copy(idA[:], nd.Bytes("pre id", 16))
+	if nd.Choice("pre tracing id", 2) == 1 {
+		f.Body.TracingId = &idA
+	}
+	payA := map[string][]byte{"k": nd.Bytes("pre pv", 1)}
+	switch nd.Choice("pre payload", 3) {
+	case 1:
+		f.Body.CustomPayload = map[string][]byte{}
+	case 2:
+		f.Body.CustomPayload = payA
+	}
+	warnA := []string{nd.String("pre w", 1)}
+	switch nd.Choice("pre warnings", 3) {
+	case 1:
+		f.Body.Warnings = []string{}
+	case 2:
+		f.Body.Warnings = warnA
+	}
+	preId, prePay, preWarn := f.Body.TracingId, f.Body.CustomPayload, f.Body.Warnings
+	governed := primitive.HeaderFlag(0)
+	want := false
+	switch nd.Choice("call", 14) {
+	case 0:
+		f.SetCompress(true)
+		governed, want = primitive.HeaderFlagCompressed, kind >= 3
+	case 1:
+		f.SetCompress(false)
+		governed, want = primitive.HeaderFlagCompressed, false
+	case 2:
+		f.SetTracingId(nil)
+		governed, want = primitive.HeaderFlagTracing, false
+		nd.Assert(f.Body.TracingId == nil, "SetTracingId(nil) removes the tracing id")
+		preId = nil
+	case 3:
+		var id primitive.UUID
+		copy(id[:], nd.Bytes("id", 16))
+		f.SetTracingId(&id)
+		governed, want = primitive.HeaderFlagTracing, true
+		nd.Assert(f.Body.TracingId == &id, "SetTracingId stores the id")
+		preId = &id
+	case 4: // the id the body already holds
+		f.SetTracingId(&idA)
+		governed, want = primitive.HeaderFlagTracing, true
+		nd.Assert(f.Body.TracingId == &idA, "SetTracingId stores the id (same object as before)")
+		preId = &idA
+	case 5:
+		f.RequestTracingId(true)
+		governed, want = primitive.HeaderFlagTracing, true
+	case 6:
+		f.RequestTracingId(false)
+		governed, want = primitive.HeaderFlagTracing, false
+	case 7:
+		f.SetCustomPayload(nil)
+		governed, want = primitive.HeaderFlagCustomPayload, false
+		nd.Assert(len(f.Body.CustomPayload) == 0, "SetCustomPayload(nil) removes the payload")
+		prePay = nil
+	case 8:
+		f.SetCustomPayload(map[string][]byte{})
+		governed, want = primitive.HeaderFlagCustomPayload, false
+		nd.Assert(len(f.Body.CustomPayload) == 0, "SetCustomPayload(empty) leaves no payload")
+		prePay = nil
+	case 9:
+		p := map[string][]byte{"n": nd.Bytes("pv", 1)}
+		f.SetCustomPayload(p)
+		governed, want = primitive.HeaderFlagCustomPayload, true
+		nd.Assert(len(f.Body.CustomPayload) == 1 && f.Body.CustomPayload["n"] != nil, "SetCustomPayload stores the payload")
+		prePay = f.Body.CustomPayload
+	case 10: // the map the body may already hold
+		f.SetCustomPayload(payA)
+		governed, want = primitive.HeaderFlagCustomPayload, true
+		nd.Assert(len(f.Body.CustomPayload) == 1 && f.Body.CustomPayload["k"] != nil, "SetCustomPayload stores the payload (same map as before)")
+		prePay = f.Body.CustomPayload
+	case 11:
+		f.SetWarnings(nil)
+		governed, want = primitive.HeaderFlagWarning, false
+		nd.Assert(len(f.Body.Warnings) == 0, "SetWarnings(nil) removes the warnings")
+		preWarn = nil
+	case 12:
+		f.SetWarnings([]string{nd.String("w", 1)})
+		governed, want = primitive.HeaderFlagWarning, true
+		nd.Assert(len(f.Body.Warnings) == 1, "SetWarnings stores the warnings")
+		preWarn = f.Body.Warnings
+	case 13: // the slice the body may already hold
+		f.SetWarnings(warnA)
+		governed, want = primitive.HeaderFlagWarning, true
+		nd.Assert(len(f.Body.Warnings) == 1, "SetWarnings stores the warnings (same slice as before)")
+		preWarn = f.Body.Warnings
+	}
+	post := f.Header.Flags
+	nd.Assert(post.Contains(governed) == want, "after a mutator call its flag reflects the argument, whatever the frame looked like before")
+	nd.Assert(post&^governed == pre&^governed, "a mutator changes no flag but its own")
+	nd.Assert(f.Body.TracingId == preId, "tracing id untouched by other mutators")
+	nd.Assert(len(f.Body.CustomPayload) == len(prePay), "custom payload untouched by other mutators")
+	nd.Assert(len(f.Body.Warnings) == len(preWarn), "warnings untouched by other mutators")
+	nd.Assert(f.Body.Message == msg, "the message is untouched by every mutator")
+}
+
+func VerifC20_OneStep_Startup_v4() { verifC20OneStep(0, primitive.ProtocolVersion4) }
+func VerifC20_OneStep_Options_v5() { verifC20OneStep(1, primitive.ProtocolVersion5) }
+func VerifC20_OneStep_Ready_dse2() { verifC20OneStep(2, primitive.ProtocolVersionDse2) }
+func VerifC20_OneStep_Query_v2()   { verifC20OneStep(3, primitive.ProtocolVersion2) }
+func VerifC20_OneStep_Query_v4()   { verifC20OneStep(3, primitive.ProtocolVersion4) }
+func VerifC20_OneStep_Void_v3()    { verifC20OneStep(4, primitive.ProtocolVersion3) }
+func VerifC20_OneStep_Void_v5()    { verifC20OneStep(4, primitive.ProtocolVersion5) }
+func VerifC20_OneStep_Error_dse1() { verifC20OneStep(5, primitive.ProtocolVersionDse1) }
+
+// ---- histories over ALL mutators regardless of direction ("any sequence of the frame mutators"): the tracing flag
+// follows the last tracing-related call (SetTracingId(x): x != nil; RequestTracingId(b): b), the other flags their
+// parts; when the final state is legal for the frame's direction the frame still encodes and round-trips.
+
+func verifC20Mixed(kind int, v primitive.ProtocolVersion, depth int) {
+	msg := verifC20Message(kind)
+	f := NewFrame(v, 1, msg)
+	wantTracing := false
+	var idA primitive.UUID
+	copy(idA[:], nd.Bytes("id", 16))
+	payA := map[string][]byte{"k": nd.Bytes("pv", 1)}
+	warnA := []string{nd.String("w", 1)}
+	for i := 0; i < depth; i++ {
+		n := 6
+		if v >= primitive.ProtocolVersion4 {
+			n = 10
+		}
+		switch nd.Choice("call"+string(rune('0'+i)), n) {
+		case 0:
+			f.SetCompress(true)
+		case 1:
+			f.SetCompress(false)
+		case 2:
+			f.SetTracingId(nil)
+			wantTracing = false
+		case 3:
+			f.SetTracingId(&idA)
+			wantTracing = true
+		case 4:
+			f.RequestTracingId(true)
+			wantTracing = true
+		case 5:
+			f.RequestTracingId(false)
+			wantTracing = false
+		case 6:
+			f.SetCustomPayload(nil)
+		case 7:
+			f.SetCustomPayload(payA)
+		case 8:
+			f.SetWarnings(nil)
+		case 9:
+			f.SetWarnings(warnA)
+		}
+		fl := f.Header.Flags
+		nd.Assert(fl.Contains(primitive.HeaderFlagTracing) == wantTracing, "the tracing flag follows the last tracing-related mutator call")
+		nd.Assert(fl.Contains(primitive.HeaderFlagCustomPayload) == (len(f.Body.CustomPayload) > 0), "mixed: custom payload flag <=> payload present")
+		nd.Assert(fl.Contains(primitive.HeaderFlagWarning) == (len(f.Body.Warnings) > 0), "mixed: warning flag <=> warnings present")
+		if fl.Contains(primitive.HeaderFlagCompressed) {
+			nd.Assert(kind >= 3, "mixed: STARTUP, OPTIONS and READY are never flagged compressed")
+		}
+	}
+	legal := true
+	if f.Header.IsResponse {
+		legal = f.Header.Flags.Contains(primitive.HeaderFlagTracing) == (f.Body.TracingId != nil)
+	} else {
+		legal = f.Body.TracingId == nil && len(f.Body.Warnings) == 0
+	}
+	if !legal {
+		return
+	}
+	nd.CompressPolicy(2)
+	codec := NewRawCodecWithCompression(lz4.Compressor{})
+	buf := &bytes.Buffer{}
+	err := codec.EncodeFrame(f, buf)
+	nd.Assert(err == nil, "frame encodes after a mixed mutator sequence")
+	if err != nil {
+		return
+	}
+	nd.Assert(int(f.Header.BodyLength) == buf.Len()-v.FrameHeaderLengthInBytes(), "declared body length equals emitted bytes after a mixed mutator sequence")
+	g, err := codec.DecodeFrame(buf)
+	nd.Assert(err == nil, "frame decodes after a mixed mutator sequence")
+	if err == nil {
+		verifEq_PFrame("frame", f, g)
+	}
+}
+
+func verifC20MixedDepth() int {
+	if verifThorough {
+		return 4
+	}
+	return 3
+}
+
+func VerifC20_Mixed_Query_v3()   { verifC20Mixed(3, primitive.ProtocolVersion3, verifC20MixedDepth()) }
+func VerifC20_Mixed_Query_v4()   { verifC20Mixed(3, primitive.ProtocolVersion4, verifC20MixedDepth()) }
+func VerifC20_Mixed_Void_v4()    { verifC20Mixed(4, primitive.ProtocolVersion4, verifC20MixedDepth()) }
+func VerifC20_Mixed_Void_v5()    { verifC20Mixed(4, primitive.ProtocolVersion5, verifC20MixedDepth()) }
+func VerifC20_Mixed_Error_dse2() { verifC20Mixed(5, primitive.ProtocolVersionDse2, verifC20MixedDepth()) }
+func VerifC20_Mixed_Startup_v4() { verifC20Mixed(0, primitive.ProtocolVersion4, verifC20MixedDepth()) }
